@@ -4,3 +4,4 @@ import NaunetProps.C01
 import NaunetProps.C02
 import NaunetProps.C04
 import NaunetProps.C03
+import NaunetProps.C13
